@@ -166,6 +166,29 @@ def load_known(prop):
 # context
 # ------------------------------------------------------------------------------------------------
 
+def anchor_hashes(prop, repo):
+    """sha256 per anchored source file of the property (from properties.jsonl), in the tree being checked"""
+    out = {}
+    for line in open(os.path.join(VERIF, "properties.jsonl")):
+        pr = json.loads(line)
+        if pr["id"] == prop:
+            for f in pr["anchors"]["files"]:
+                fp = os.path.join(repo, f)
+                out[f] = hashlib.sha256(open(fp, "rb").read()).hexdigest()[:16] if os.path.exists(fp) else None
+    return out
+
+
+def anchors_changed(prop, repo):
+    """anchored files whose content differs from the baseline recorded in harness/anchors.json (the tree the
+    models were written and validated against). NOT an alarm: it only enlarges the search (ctx.scale)."""
+    path = os.path.join(VERIF, "harness", "anchors.json")
+    if not os.path.exists(path):
+        return []
+    base = json.load(open(path)).get(prop, {})
+    cur = anchor_hashes(prop, repo)
+    return sorted(f for f in cur if base.get(f) != cur[f])
+
+
 class Ctx:
     def __init__(self, prop, tier, seed, overlay, replay=None):
         self.prop, self.tier, self.seed, self.overlay, self.replay = prop, tier, seed, overlay, replay
@@ -257,6 +280,10 @@ def run_check(prop, tier, seed, module, replay=None, level="proof", need_overlay
             return 2
         ctx = Ctx(prop, tier, seed, overlay, replay)
         ctx.proof = proof
+        changed = anchors_changed(prop, wsbuild.REPO)
+        ctx.extra["anchors_changed"] = changed
+        if changed and not replay:
+            ctx.scale = 3   # the anchored code moved since the model was validated: search harder
         module.run(ctx)
         if ctx.disagreements and not ctx.fails and not replay:
             # correspondence broke but no property failure yet: enlarged failing-input search
